@@ -130,6 +130,7 @@ type Outcome struct {
 	Deadlock bool              `json:"deadlock,omitempty"`
 	Log      []string          `json:"log,omitempty"`
 	DecRLE   string            `json:"decisions,omitempty"`
+	WallMs   int64             `json:"wall_ms"`
 }
 
 // GCBetween: run two GC cycles (emptying sync.Pools) before every run, which
@@ -148,6 +149,7 @@ func Run(t *testing.T, sc Sched, wantLog, wantDec bool, body func(e *Env)) Outco
 		runtime.GC()
 		runtime.GC()
 	}
+	wall0 := time.Now() // outside the bubble: real clock
 	e := &Env{R: NewRand(sc.AuxSeed ^ 0x5851f42d4c957f2d), Probes: map[string]int{}, Faults: map[string]int{}, Notes: map[string]string{}, logOn: wantLog, logHash: 14695981039346656037}
 	var out Outcome
 	var play []byte
@@ -201,6 +203,7 @@ func Run(t *testing.T, sc Sched, wantLog, wantDec bool, body func(e *Env)) Outco
 	}
 	out.Viol, out.Probes, out.Faults, out.Notes = e.Viol, e.Probes, e.Faults, e.Notes
 	out.SimNs, out.Events, out.LogHash = simNs, e.Seq, e.logHash
+	out.WallMs = time.Since(wall0).Milliseconds()
 	if wantLog {
 		out.Log = e.log
 	}
